@@ -11,15 +11,11 @@ type lifecycle struct{}
 
 func newLifecycle() *lifecycle { return &lifecycle{} }
 
-func (s *Sim) checkBegin(b *blockObs, before, after *Dump) {}
 
-func (s *Sim) checkEnd(b *blockObs, r abci.ResponseEndBlock, before, after *Dump) {}
 
 func (s *Sim) checkOwnTx(b *blockObs, i int, tx []byte, r abci.ResponseDeliverTx, before, after *Dump, diff []Change) {
 }
 
-func (s *Sim) checkNodeTx(t *txCtx, changed bool) {}
-func (s *Sim) checkAppTx(t *txCtx, changed bool)  {}
 
 func (s *Sim) endOfRun() {}
 
